@@ -249,7 +249,7 @@ def run(ctx):
     F = ctx.F
     for f in rr.traversal(F):
         tv = rr.Trav(ctx, f)
-        if tv.pop is not None and tv.dedup is not None:
+        if ctx.need(tv.pop is not None and tv.dedup is not None, 'S1-LOOP', 'queue.pop() and candidates.dedup() in ' + f.path):
             rr.r_loop(ctx, tv)
             rr.r_scoring(ctx, tv)
     from props import C01
